@@ -161,6 +161,7 @@ type Exec struct {
 	sharedVals  []*Term
 	valueSort   *Sort
 	recFuel     map[*ssa.Function]int
+	maxFuel     int
 	nFrame      int
 	frameOff    bool
 	unroll      bool
@@ -178,7 +179,7 @@ type iterRole struct {
 }
 
 func NewExec(c *Ctx, p *Program) *Exec {
-	return &Exec{c: c, prog: p, maxSteps: 400000, iterSrc: map[*Term]iterRole{}, iterSources: map[int]*iterSource{}, iterOf: map[*Term]int{}, cellType: map[int]types.Type{}, cellName: map[int]string{}, cover: map[*ssa.Function]bool{}, globals: map[string]*ssa.Global{}, globalVals: map[string]*Term{}, initCells: map[int]*Term{}, rangeOfMap: map[*Term]*Term{}, initDone: map[*ssa.Package]bool{}}
+	return &Exec{c: c, prog: p, maxSteps: 400000, maxFuel: 2, iterSrc: map[*Term]iterRole{}, iterSources: map[int]*iterSource{}, iterOf: map[*Term]int{}, cellType: map[int]types.Type{}, cellName: map[int]string{}, cover: map[*ssa.Function]bool{}, globals: map[string]*ssa.Global{}, globalVals: map[string]*Term{}, initCells: map[int]*Term{}, rangeOfMap: map[*Term]*Term{}, initDone: map[*ssa.Package]bool{}}
 }
 
 func NewState() *State {
@@ -413,6 +414,8 @@ func (x *Exec) load(st *State, addr *Term, s *Sort) *Term {
 			panic(fmt.Sprintf("load from unknown cell %d", addr.Idx))
 		}
 		return v
+	case "vcell":
+		return addr.Args[0]
 	case "faddr":
 		base := x.load(st, addr.Args[0], addr.Aux)
 		return c.Sel(base, addr.Idx)
@@ -617,7 +620,7 @@ func (x *Exec) newCell(st *State, v *Term, t types.Type) *Term {
 // isNilRef: condition under which a reference term is nil.
 func (x *Exec) isNilRef(p *Term) *Term {
 	switch p.Op {
-	case "cell", "faddr", "iaddr", "global":
+	case "cell", "faddr", "iaddr", "global", "vcell":
 		return x.c.False
 	case "ite":
 		return x.c.Ite(p.Args[0], x.isNilRef(p.Args[1]), x.isNilRef(p.Args[2]))
@@ -725,7 +728,7 @@ func (x *Exec) recSpecCall(st *State, fn *ssa.Function, args []*Term) []Outcome 
 	}
 	all = append(all, args...)
 	app := c.App("rec_"+shortName(fn.String()), rs, all...)
-	if x.recFuel[originOf(fn)] > 0 {
+	if x.recFuel[originOf(fn)] >= x.maxFuel {
 		return []Outcome{{st: st, kind: ORet, val: app}}
 	}
 	if x.recFuel == nil {
@@ -746,9 +749,37 @@ func (x *Exec) recSpecCall(st *State, fn *ssa.Function, args []*Term) []Outcome 
 	v, def, facts := x.mergeOuts(st, outs, rs)
 	_ = mark
 	if v != nil {
-		x.assumeFact(st, c.Implies(c.And(facts, def), c.Eq(app, v)))
+		x.assumeFact(st, facts)
+		x.assumeFact(st, c.Implies(def, c.Eq(app, v)))
 	}
 	return []Outcome{{st: st, kind: ORet, val: app}}
+}
+
+// foreignLocalInv: the loop's invariant is marked local to its function's own
+// contract (ordinal >= 1000) and the current harness is about something else:
+// the loop is unrolled (its trip count must be concrete there).
+func (x *Exec) foreignLocalInv(fr *Frame, call *ssa.Call) bool {
+	k, ok := x.val(fr, call.Call.Args[0]).IntVal()
+	if !ok || k < 1000 {
+		return false
+	}
+	if x.h == nil || x.h.Item == nil {
+		return true
+	}
+	owner := fr.fn
+	for owner.Parent() != nil {
+		owner = owner.Parent()
+	}
+	name := originOf(owner).Name()
+	if x.h.Item.Kind == "func" && x.h.Item.Name == name {
+		return false
+	}
+	for _, u := range strings.Split(x.h.Item.Options["useinv"], ",") {
+		if strings.TrimSpace(u) == name {
+			return false
+		}
+	}
+	return true
 }
 
 // summaryFor: the harness asked (option assume=F,G) to use the contract of
@@ -1108,6 +1139,11 @@ func (x *Exec) runFrom(fr *Frame, st *State, b *ssa.BasicBlock, i int) []Outcome
 				bs := make([]*Term, len(ins.Bindings))
 				for k, bv := range ins.Bindings {
 					bs[k] = x.val(fr, bv)
+					if al, ok := bv.(*ssa.Alloc); ok && bs[k].Op == "cell" && captureImmutable(al) {
+						if content, ok := st.cells[bs[k].Idx]; ok {
+							bs[k] = c.mk(&Term{Op: "vcell", Args: []*Term{content}, Sort: c.Ref, Aux: content.Sort})
+						}
+					}
 				}
 				fr.env[ins] = c.Clo(fn, c.SortOf(ins.Type()), bs...)
 			case *ssa.MakeMap:
@@ -1130,7 +1166,7 @@ func (x *Exec) runFrom(fr *Frame, st *State, b *ssa.BasicBlock, i int) []Outcome
 				}
 			case *ssa.Call:
 				if isLoopInv(ins.Common()) {
-					if x.unroll {
+					if x.unroll || x.foreignLocalInv(fr, ins) {
 						// bounded lemma: loops are unrolled concretely, cut points ignored
 						fr.env[ins] = c.Ctor(c.Unit)
 						continue
